@@ -24,7 +24,8 @@ Extra (non-mandatory) keys this extractor adds:
   union variant: "super": TYPE|None (the supertype written after `:`), "generics": [str],
                  "content_key": str (newtype only), "nullable": bool, "default": str|None (newtype only)
 """
-from .base import Cursor, ExtractError, lex, mapt, opt, prim, seq, unquote, user
+from .base import Cursor, ExtractError, lex, mapt, opt, prim, seq, user
+from .base import unquote as base_unquote
 
 PRIMS = {"String", "Int", "UInt", "Short", "UShort", "Byte", "UByte", "Long", "ULong", "Float", "Double",
          "Boolean", "Unit", "Char", "Any", "Nothing", "Number"}
@@ -45,6 +46,14 @@ def has_template(lit):
             return True
         i += 1
     return False
+
+
+def unquote(lit):
+    """value of a Kotlin string literal. A literal with an unescaped `$name` / `${` is a string TEMPLATE: it has no constant
+    value (and is not allowed as an annotation argument); what is reported for it can equal no wire string"""
+    if lit[0] == '"' and has_template(lit):
+        return "\u27e6template " + lit[1:-1] + "\u27e7"
+    return base_unquote(lit)
 
 
 def where(c):
